@@ -82,6 +82,10 @@ HasDef(e) == Enc(e, S("0")) # I(0)
 Def(e)    == Enc(e, S("0"))
 
 (* ------------------------------ base tables ------------------------------ *)
+(* TLC orders strings by the moment they are first created; the one-hot keys "k_i" are built at run time (EncodeCatT), by
+   whichever worker gets there first.  Naming them here fixes their order, so SetToSeq / CHOOSE - and with them the set of
+   generated behaviours - are the same in every run. *)
+OneHotKeyNames == <<"0_0","0_1","0_2","1_0","1_1","1_2","2_0","2_1","2_2","3_0","3_1","3_2","zz","#">>
 HN == <<"c","a","d","b","g","e","f","h","j">>     \* header names by position; deliberately not alphabetical
 L3 == <<"x","y","z">>
 L2 == <<"p","q">>
